@@ -317,7 +317,10 @@ fn exercise(spec: &ProgSpec, rng: &mut Rng, per_program_random: usize) -> Out1 {
     for _ in 0..per_program_random {
         let sink = rng.pick(&[Sink::StdoutFile, Sink::StdoutPipe, Sink::DashOFile, Sink::DashODir]).clone();
         let cls = sink.class();
-        let plan = match rng.below(6) {
+        let plan = match rng.below(8) {
+            // a one-off error (EAGAIN on a non-blocking pipe, ETIMEDOUT, a passing EIO), alone or while a request is being taken piecewise
+            6 => format!("{}:{}:y:{}", cls, rng.below(4), rng.pick(&[11u32, 11, 110, 5])),
+            7 => format!("{c}:*:l:{k};{c}:{j}:y:{e}", c = cls, k = rng.pick(&[1u32, 3, 64, 1024, 4096]), j = 1 + rng.below(40), e = rng.pick(&[11u32, 11, 110, 5])),
             0 | 1 => format!("{}:*:l:{}", cls, rng.pick(&[1u32, 2, 3, 7, 64, 1023, 1024, 1025, 4096])),
             2 => format!("{}:{}:s:{}", cls, rng.below(4), 1 + rng.below(5)),
             3 => format!("{}:{}:e:0", cls, rng.below(4)),
